@@ -59,6 +59,10 @@ def search_container(job):
              {"base": "template", "kind": "zipstruct", "region": "cd", "entry": 0, "stored": True},
              {"base": "template", "kind": "zipstruct", "region": "local", "entry": 0},
              {"base": "template", "kind": "truncate", "frac": 0.5}, {"base": "template", "kind": "not-zip"}, {"base": "template", "kind": "no-iwa"}]
+    names = [n for n, _ in F.base_members("template") if n.endswith(".iwa")]
+    for n in names[:2]:
+        for fault in ("empty", "bytes1", "bytes3", "zeros2", "trunc-half", "trunc-3", "marker", "length+", "length-", "garbage-payload", "varint-cut"):
+            cases.append({"base": "template", "kind": "member", "member": n, "fault": fault})
     for case in cases:
         r = F.run_case(case)
         if r and not r.get("ok"):
